@@ -13,6 +13,7 @@ breakpoint range, caller order, knot-vector shape.
 """
 import math
 from fractions import Fraction
+import copy
 import numpy as np
 from harness import core
 
@@ -131,7 +132,24 @@ def make_obj(case):
     b.coeff = bf_(case['coeff']).astype(case.get('coeffdtype', 'float64'))
     b.icoeff = np.zeros_like(b.coeff)
     b.xmin, b.xmax, b.funcname = 0.0, 1.0, 'legendre'
+    # whatever else the constructor of the current source sets up (bookkeeping attributes) comes from a regularly built object
+    for k_, v_ in _template_attrs().items():
+        if k_ not in b.__dict__:
+            setattr(b, k_, copy.deepcopy(v_))
     return b
+
+
+_TEMPLATE = {}
+
+
+def _template_attrs():
+    if 'attrs' not in _TEMPLATE:
+        from pydl.pydlutils.bspline import bspline
+        try:
+            _TEMPLATE['attrs'] = dict(bspline(np.arange(12.0), nord=4, nbkpts=4).__dict__)
+        except Exception:
+            _TEMPLATE['attrs'] = {}
+    return _TEMPLATE['attrs']
 
 
 def impl_eval(case):
@@ -150,11 +168,24 @@ def impl_eval(case):
             act = b.action(xw)
             # value() calls argsort itself; hand it the same permutation
             y, m = _value_with_perm(b, x, perm)
+            # history: the same object asked again with the same work array, re-ordered in place by the caller ("evaluating at
+            # points given in any order returns, in the caller's order, ..."): plain ndarray, value() sorts for itself
+            hist = None
+            if x.size >= 2:
+                buf = np.array(x, dtype='d')
+                y1, m1 = b.value(buf)
+                buf[:] = buf[::-1].copy()
+                y2, m2 = b.value(buf)
+                y3, m3 = make_obj(case).value(np.array(buf))
+                if not (np.array_equal(np.asarray(y2), np.asarray(y3), equal_nan=True) and np.array_equal(np.asarray(m2), np.asarray(m3))):
+                    hist = 'value() of a work array re-ordered in place differs from the same points in a fresh array / fresh object'
         out = {'indx': [int(i) for i in indx], 'bf': bfv,
                'action': not isinstance(act[0], int),
                'lower': [] if isinstance(act[0], int) else [int(v) for v in act[1]],
                'upper': [] if isinstance(act[0], int) else [int(v) for v in act[2]],
                'y': [float(v) for v in y], 'mask': [bool(v) for v in m]}
+        if hist:
+            out['history'] = hist
         return {'ok': out}
     except Exception as e:
         return {'err': core.exc_kind(e)}
@@ -372,7 +403,8 @@ def gen_direct_knots(rng):
     """knot vectors given directly (not through the constructor): irregular, repeated interior knots, masked breakpoints"""
     k = rng.choice([1, 2, 3, 4, 4, 5, 6])
     m = rng.choice([2, 2, 3, 4, 6, 9, 14])
-    lo, span = rng.choice([(0.0, 1.0), (-3.0, 7.0), (4000.0, 2500.0)])
+    # (wavelengths in metres, times in days since an epoch: the unit of the abscissa is the caller's business)
+    lo, span = rng.choice([(0.0, 1.0), (-3.0, 7.0), (4000.0, 2500.0), (3.5e-7, 6.0e-7), (0.0, 2.0 ** -30), (1.0e9, 3.0e8)])
     inner = sorted(lo + span * rng.random() for _ in range(m))
     mode = rng.choice(['simple', 'simple', 'repeat-interior', 'repeat-first', 'clamped', 'short'])
     if mode == 'repeat-interior' and m >= 4:
@@ -500,6 +532,8 @@ def check_eval(ctx, case, impl, model, model_rat):
             ctx.disagree('eval', case, impl, model)
         return
     I = impl['ok']
+    if I.get('history'):
+        ctx.violate('eval:history', I.pop('history'), case)
     if isinstance(I['bf'], str):
         M = model.get('ok', {})
         if 'err' in model or I['bf'] != M.get('bf') or any(I[key] != M.get(key) for key in ('indx', 'action', 'lower', 'upper', 'mask')) or \
